@@ -38,7 +38,8 @@ CLAIMED['C08'] = dict(
 CLAIMED['C05'] = dict(
     level='exploration',
     text='Seeded search over driver-side histories (reads ok/raising/invalid, writes, assignments equal/different/'
-         'invalid, explicit and repeated error announcements, gaps below/above the suppression window) from 1..3 '
+         'invalid, values stamped by a coarse device clock, explicit and repeated error announcements, gaps below/above '
+         'the suppression window) from 1..3 '
          'tasks against generated parameters of all datatypes (64 bit integers, strings with lone surrogates as '
          'surrogateescape decoding gives them) and all omit_unchanged_within/update_unchanged settings. Judged (i) against a register model fed from the operations and (ii) by replaying the byte stream '
          'of every activated connection (one activated on the quiet node, 0..2 more from the start, optionally one '
@@ -106,7 +107,7 @@ CLAIMED['C12'] = dict(
          'the rx thread by sync markers, optionally a restart of the peer with another description (module added, '
          'accessible changed) which the client meets by reconnecting on its own; (e2e) real client <-> real node with recording drivers, '
          'setParameter/getParameter/execCommand over generated parameters of every datatype (incl. integers beyond '
-         '2**53), two concurrent writers through one client; (proxy) the same through '
+         '2**53), structs with optional members left out at any depth, two concurrent writers through one client; (proxy) the same through '
          'a real node of frappy.proxy modules, with a connection drop; in both while the drivers of the node publish '
          'values of their own (second sender on the connection). Cache = import of the last message, timestamp '
          'never in the future, each callback exactly once per message in order, driver argument = caller value, '
@@ -126,7 +127,7 @@ CLAIMED['C16'] = dict(
          'pre-emption at lock operations and line events of io.py/asynconn.py. Checked: own reply per command (stale = '
          'read from the socket before the command left, judged on the byte stream by the event number of the recv), '
          'communicator lock (no overlapping in-flight windows, no foreign command '
-         'inside a multicomm), delays honoured, failures are communication errors within the time-out bound, every call '
+         'inside a multicomm), delays honoured (also the one after the last command of a transaction), failures are communication errors within the time-out bound, every call '
          'returns (a run that cannot end with a call open is a violation), reconnect rate of callers (dated by the '
          'moment the rate limiter was consulted), reconnect callbacks exactly once per reconnect, healing and poll resumption after faults stop.',
     note='Trusted: simulation kernel, simulated TCP, scripted device. Bytes arriving after a command was sent cannot '
@@ -205,7 +206,8 @@ CLAIMED['C15'] = dict(
     text='Seeded search over attachment graphs on 2..5 generated, instrumented modules (acyclic, cyclic, missing, wrongly '
          'typed, optional/empty, not configured), first-use phase per attachment (earlyInit, initModule, startModule, poll, '
          'shutdown, never), shuffled declaration order, Pinata with dynamic modules (first, in the middle or last; a '
-         'configured module may be attached to a scanned one), shared communicator through uri, '
+         'configured module may be attached to a scanned one), attachments named io (polled by the thread of the '
+         'attached module, chains included), shared communicator through uri, '
          'configured writes (one of them may fail once with a communication error), failing early/late initialisation, slow or hanging first polls, shutdown during a read '
          '(shorter and longer than the grace time), optionally a restart (shutdown, then the same configuration '
          'started again in the same process, judged like the first generation) - '
@@ -237,7 +239,7 @@ CLAIMED['C10'] = dict(
 CLAIMED['C18'] = dict(
     level='exploration',
     text='Seeded search over generated layouts (StructParam with combined or member access methods, FloatEnumParam label '
-         'sets, limit parameters min/max/limits, 1..3 HasOutputModule controllers on one HasControlledBy output, '
+         'sets, limit parameters min/max/limits (incl. limits of exactly zero), 1..3 HasOutputModule controllers on one HasControlledBy output, '
          'optionally a second output with a controller of its own) and '
          'operation histories issued alternately by a wire client and by the driver while the poll thread runs, with '
          'one-shot hardware faults inside struct accesses and, where frappy establishes consistency inside the update '
@@ -256,8 +258,8 @@ CLAIMED['C18'] = dict(
 CLAIMED['C06'] = dict(
     level='exploration',
     text='Seeded search over nodes built from generated module classes (all datatypes, readonly/constant/export flags, '
-         'commands, unexported modules, constants of every datatype, the export of single parameters given in the '
-         'configuration) and from the shipped hardware-free configurations '
+         'commands, unexported modules, constants of every datatype declared in the class or given in the configuration '
+         '(also non-finite), the export of single parameters given in the configuration) and from the shipped hardware-free configurations '
          '(demo, sim, cryo, test, sim_mlz_htf02, sim_mlz_cci3he1, ls370sim; their threads, sleeps and random numbers run '
          'behind the seams), probed by a describing client over the wire while poll threads and a second client run '
          'and the driver now and then assigns a reading the datatype refuses: '
